@@ -205,6 +205,26 @@ def run(p: Program, rep: Report, tier: str) -> None:
                     rep.ok("R6.3", "asgi: the relay task is cancelled in the finally block")
                 else:
                     rep.violation("R6.3", construct(rs, text="relay task never cancelled"), where(rs), "asgi: the relay task is neither cancelled nor awaited when the consumer stops")
+        # the relay's own finally hands off the sentinel with a blocking put: the queue must have room,
+        # i.e. the consumer must empty it before it cancels / waits (otherwise the relay never finishes)
+        pfins = _finally_blocks(push)
+        fin_puts = [c for c in blocking if any(_in(c, t.finalbody) for t in pfins)]
+        if bounded and fin_puts:
+            settle = [c for c in calls_in(rs) if isinstance(c.func, ast.Attribute) and c.func.attr in ("cancel", "exception", "result") and any(_in(c, t.finalbody) for t in fins)]
+            first_settle = min((c.lineno for c in settle), default=None)
+            drains = []
+            for t in fins:
+                for n in ast.walk(ast.Module(body=t.finalbody, type_ignores=[])):
+                    if isinstance(n, ast.While) and (f"{qname}.empty()" in ast.unparse(n.test) or "done()" in ast.unparse(n.test)):
+                        bs = ast.unparse(ast.Module(body=n.body, type_ignores=[]))
+                        if f"{qname}.get" in bs:
+                            drains.append(n)
+            if drains and first_settle is not None and min(d.lineno for d in drains) < first_settle:
+                rep.ok("R6.3", f"{side}: the consumer empties the queue before it cancels/awaits the relay, so the relay's final {qname}.put(None) has room")
+            else:
+                rep.violation("R6.3", construct(rs, text="relay settled without emptying the queue first"), where(rs, settle[0] if settle else rs.node),
+                              f"{side}: the relay's finally performs a blocking {qname}.put(None) on the bounded queue, but the consumer cancels/awaits the relay without emptying the queue first: "
+                              "with the producer one item ahead the sentinel put blocks forever, the relay task/thread never finishes and the user's generator is never closed")
         # stop flag
         flags = [n for n in ast.walk(ast.Module(body=[s for t in fins for s in t.finalbody], type_ignores=[])) if isinstance(n, ast.Assign) and ast.unparse(n).replace(" ", "") == "should_stop=True"]
         loop_tests = [ast.unparse(n.test) for n in ast.walk(push.node) if isinstance(n, ast.While)]
